@@ -81,10 +81,14 @@ class Ctx:
             self.fail_infra("go build %s failed:\n%s" % (name, o))
         return out
 
-    def build_overlay(self, name, pkgdir, driver, tags=None, replace=None):
-        """build a `package main` of /repo with a driver file injected by -overlay (no change to /repo)"""
+    def build_overlay(self, name, pkgdir, drvdir, tags=None, replace=None):
+        """build a `package main` of /repo with the driver files of `drvdir` injected by -overlay
+        (every *.go there appears as zz_verif_<file> in the package; /repo is not touched)"""
         out = os.path.join(BUILD, name)
-        ov = {"Replace": {os.path.join(pkgdir, "zz_verif_driver.go"): driver}}
+        ov = {"Replace": {}}
+        for fn in sorted(os.listdir(drvdir)):
+            if fn.endswith(".go"):
+                ov["Replace"][os.path.join(pkgdir, "zz_verif_" + fn)] = os.path.join(drvdir, fn)
         if replace:
             ov["Replace"].update(replace)
         ovp = os.path.join(BUILD, name + ".overlay.json")
@@ -98,6 +102,9 @@ class Ctx:
         if rc != 0:
             self.fail_infra("go build (overlay) %s failed:\n%s" % (name, o))
         return out
+
+    def build_fcdrv(self):
+        return self.build_overlay("fcdrv", os.path.join(REPO, "fc"), os.path.join(VERIF, "harness", "fcdrv"))
 
     def fail_infra(self, msg):
         # the implementation no longer builds with the harness: that is a broken tie, not a pass
@@ -194,6 +201,10 @@ class Ctx:
     # ---------- streams
     def run_harness(self, cmd, timeout=3600, env=None, cwd=None):
         """run a harness command; returns (inputs, outputs, violations(list of dict), stats)"""
+        # one OS thread per harness process: the drivers are single-threaded allocators and Go's
+        # concurrent GC on 16 cores costs 10x in futex traffic; parallelism comes from several processes
+        env = dict(env or os.environ)
+        env.setdefault("GOMAXPROCS", "1")
         p = subprocess.run(cmd, stdout=subprocess.PIPE, stderr=subprocess.PIPE, text=True, timeout=timeout,
                            env=env, cwd=cwd, errors="replace")
         ins, outs, vio, stats = [], [], [], {}
@@ -268,7 +279,9 @@ class Ctx:
     def stream_parallel(self, name, cmds, **kw):
         """run several harness commands concurrently and merge them into one stream"""
         from concurrent.futures import ThreadPoolExecutor
-        with ThreadPoolExecutor(max_workers=min(16, len(cmds))) as ex:
+        # NB: in this sandbox concurrent allocation-heavy Go processes slow each other down badly
+        # (page-fault cost), so fc-driver streams pass par=1
+        with ThreadPoolExecutor(max_workers=min(kw.get("par", 16), len(cmds))) as ex:
             rs = list(ex.map(lambda c: self.run_harness(c, timeout=kw.get("timeout", 3600), env=kw.get("env"), cwd=kw.get("cwd")), cmds))
         info = {"cases": 0, "mismatches": 0, "direct_violations": 0, "_mism": []}
         self.streams[name] = info
